@@ -17,13 +17,50 @@ CACHE_PROOF = """proof {
         lemma_map_of_pairs_functional(__c2@, a, |id: CoinID| spec_get_coin(state.coins@, id));
     }
 }"""
+V_PRE = """proof { assert forall|i: int| 0 <= i < __cV0@.len() implies outputs_fit(*(#[trigger] __cV0@[i])) && tx_env(s0, rel, *__cV0@[i]) by { assert(*__cV0@[i] == tq[i]); } }"""
+V_POST = """proof { if __rV is Ok {
+        assert forall|t: int| 0 <= t < tq.len() implies tx_checked(s0, rel, nsm, #[trigger] tq[t]) by {
+            assert(__cV0.items2()[t] == __cV0@[t]); assert(call_ensures(__clV1, (__cV0.items2()[t],), Ok::<(), StateError>(()))); assert(*__cV0@[t] == tq[t]); }
+    } else { let i = choose|i: int| 0 <= i < __cV0@.len() && call_ensures(__clV1, (#[trigger] __cV0@[i],), __rV); } }"""
+D_PRE = """let ghost db = choose|b: spec_fn(&Transaction) -> bool| #[trigger] filter_decided(__clD1, __cD0@, __cD1@, b);
+    proof { lemma_filter_mem(__cD0@, db);
+        assert forall|i: int| 0 <= i < __cD1@.len() implies dosc_pre(s0, rel, *(#[trigger] __cD1@[i])) by {
+            assert(__cD1@.contains(__cD1@[i]));
+            let j = choose|j: int| 0 <= j < __cD0@.len() && __cD0@[j] == __cD1@[i];
+            assert(call_ensures(__clD1, (&__cD0@[j],), db(__cD0@[j])));
+            assert(*__cD0@[j] == tq[j]); assert(tx_checked(s0, rel, nsm, tq[j])); assert(tx_env(s0, rel, tq[j]));
+            lemma_balanced_has_input(tq[j], rel);
+        } }"""
+D_POST = """proof { let accs = choose|accs: Seq<u128>| #[trigger] try_fold_decided(__clD2, __clD2b, __cD1@, accs, fv);
+        if __rD is Ok {
+            let v = fv->Ok_0;
+            assert forall|i: int| 0 <= i < __cD1@.len() implies dosc_step(s0, rel, *(#[trigger] __cD1@[i]), accs[i], accs[i + 1]) by {
+                assert(call_ensures(__clD2b, (accs[i], __cD1@[i]), Ok::<u128, StateError>(accs[i + 1]))); }
+            lemma_dosc_fold(s0, rel, __cD1@, accs, __cD1@.len() as int);
+            assert(__rD->Ok_0 == v);
+            assert forall|t: int| 0 <= t < tq.len() && (#[trigger] tq[t]).kind == TxKind::DoscMint implies dosc_le(s0, rel, tq[t], v) by {
+                assert(call_ensures(__clD1, (&__cD0@[t],), db(__cD0@[t]))); assert(*__cD0@[t] == tq[t]);
+                assert(__cD0@.contains(__cD0@[t])); assert(__cD1@.contains(__cD0@[t]));
+                let i = choose|i: int| 0 <= i < __cD1@.len() && __cD1@[i] == __cD0@[t];
+                assert(dosc_le(s0, rel, *__cD1@[i], accs[__cD1@.len() as int])); }
+            if v != s0.dosc_speed {
+                let i = choose|i: int| 0 <= i < __cD1@.len() && doscmint_ok(s0, rel, *(#[trigger] __cD1@[i]), v);
+                assert(__cD1@.contains(__cD1@[i]));
+                let j = choose|j: int| 0 <= j < __cD0@.len() && __cD0@[j] == __cD1@[i];
+                assert(call_ensures(__clD1, (&__cD0@[j],), db(__cD0@[j]))); assert(*__cD0@[j] == tq[j]);
+                assert(0 <= j < tq.len() && tq[j].kind == TxKind::DoscMint && doscmint_ok(s0, rel, tq[j], v));
+            }
+        } }"""
 UNIT = Unit(
     name="batch", uses="group_core_axioms",
-    prelude=["core.rs", "raw.rs", "iter.rs", "crypto.rs", "state_abs.rs"],
-    lemmas=["sums.rs", "iterlem.rs", "coinsview.rs", "tips.rs", "apply.rs", "batch_def.rs"],
+    prelude=["core.rs", "raw.rs", "iter.rs", "crypto.rs", "state_abs.rs", "melvm_abs.rs", "txmethods.rs", "num.rs", "melpow.rs"],
+    lemmas=["sums.rs", "iterlem.rs", "coinsview.rs", "header.rs", "seal_opaque.rs", "tips.rs", "apply.rs", "apply_c04.rs", "dosc.rs", "stateinv.rs", "batch_def.rs", "feemul.rs", "seal_def.rs"],
     items=[
         TypeItem(S, "struct", "UnsealedState"),
         TypeItem(S, "enum", "StateError", derive="#[derive(Clone, Copy, PartialEq, Eq, Structural)]"),
+        TypeItem(S, "struct", "SealedState", subst=[("(UnsealedState<C>, Option<ProposerAction>)", "(pub UnsealedState<C>, pub Option<ProposerAction>)")]),
+        Raw("impl<C: ContentAddrStore> Clone for UnsealedState<C> { #[verifier::external_body] fn clone(&self) -> (r: Self) ensures r == *self { unimplemented!() } }"),
+        TypeItem("lib/melvm/src/lib.rs", "struct", "CovenantEnv"),
         Fn(C_, "get_coin", impl="CoinMapping", mode="assume", **cm_get_coin()),
         Fn(A, "extract_input_coins", home="C02", implicit_props=("C09", "C02"), **ap_extract_input_coins(),
            sig_subst=[("extract_input_coins<C: ContentAddrStore>", "extract_input_coins<'a, C: ContentAddrStore>"), ("transactions: &[Transaction]", "transactions: &'a [Transaction]")],
@@ -86,5 +123,42 @@ UNIT = Unit(
                    C("distinct3", "distinct_before(tq, it.index@ as int, it2.index@ as int)", "C02"),
                ]),
            ]),
+        Fn(S, "tip_906", impl="UnsealedState", mode="assume", **st_tip(830000)),
+        Fn("lib/tip911-stakeset/src/lib.rs", "add_stake", impl="StakeSet", mode="assume", **ss_add_stake()),
+        Fn(A, "load_stake_info", mode="assume", **ap_load_stake_info()),
+        Fn(A, "check_tx_validity", mode="assume", **ap_check_tx_validity()),
+        Fn(A, "validate_and_get_doscmint_speed", mode="assume", **ap_validate_doscmint()),
+        Fn(A, "create_next_state", mode="assume", **ap_create_next_state()),
+        Fn(A, "apply_tx_batch_impl", home="C02", implicit_props=("C09", "C02", "C03", "C06"), **ap_batch_impl(),
+           rewrites=[("ANF", "try_for_each", 0, 2, {0: V_PRE, 1: V_POST}, "V"), ("ANF", "try_reduce", 0, 4, {1: D_PRE, 2: "let ghost fv = __cD2.val;", 3: D_POST}, "D"), ("INTOVEC", "new_stakes")],
+           closures=[Closure(0, "tx: &Transaction", "(r: Result<(), StateError>)", requires=[C("vpre", "outputs_fit(*tx) && tx_env_r(this, relevant_coins@, *tx)")],
+                             ensures=[C("vpost", "(r is Ok ==> tx_checked_r(this, relevant_coins@, new_stakes@, *tx)) && (r is Err ==> !(r->Err_0 is WrongHeader))", "C02", "C04", "C13", "C01")]),
+                     Closure(1, "tx: &&Transaction", "(r: bool)", ensures=[C("isdosc", "r == (tx.kind == TxKind::DoscMint)", "C18")]),
+                     Closure(2, "", "(r: u128)", ensures=[C("id1", "r == this.dosc_speed", "C18")]),
+                     Closure(3, "a: u128, tx: &Transaction", "(r: Result<u128, StateError>)", requires=[C("dpre", "dosc_pre_r(this, relevant_coins@, *tx)")],
+                             ensures=[C("dpost", "match r { Ok(v) => dosc_step_r(this, relevant_coins@, *tx, a, v), Err(e) => !(e is WrongHeader) }", "C18")]),
+                     Closure(4, "", "(r: u128)", ensures=[C("id2", "r == this.dosc_speed", "C18")]),
+                     Closure(5, "a: u128, b: u128", "(r: Result<u128, StateError>)", ensures=[C("maxr", "r == Ok::<u128, StateError>(umax(a, b))", "C18")])],
+           injects=[Inject("entry", "let ghost tq = txx@; let ghost s0 = *this;"),
+                    Inject(("after_let", "relevant_coins"), """let ghost rel = relevant_coins@;
+                        proof { assert(rel_of(s0, tq, rel));
+                            assert forall|t: int| 0 <= t < tq.len() implies #[trigger] tx_env(s0, rel, tq[t]) by {}
+                            lemma_rel_consistent(s0, tq, rel); lemma_rel_heights(s0, tq, rel); }"""),
+                    Inject(("after_let", "new_stakes"), "let ghost nsm = new_stakes@;"),
+                    Inject(("after_let", "next_state"), "let ghost ns1 = next_state;"),
+                    Inject(("before", "let __iv_new_stakes"), "let ghost ns2 = next_state;"),
+                    Inject(("before", "Ok(next_state)"), """proof {
+                        assert(next_state.stakes@ =~= s0.stakes@.union_prefer_right(nsm));
+                        assert(batch_core_with(s0, tq, next_state, rel, nsm));
+                        assert(state_inv(next_state)); }""")],
+           loops=[Loop(0, binder="it", body_entry="proof { assert(it.seq()[it.index@ as int] == (k, v)); }",
+                       invariants=[
+               C("sframe", "next_state == (UnsealedState { stakes: next_state.stakes, ..ns2 }) && it.seq() == __ivs_new_stakes", "C02"),
+               C("entries", """(forall|i: int| 0 <= i < __ivs_new_stakes.len() ==> nsm.contains_key((#[trigger] __ivs_new_stakes[i]).0) && nsm[__ivs_new_stakes[i].0] == __ivs_new_stakes[i].1)
+                     && (forall|h: TxHash| nsm.contains_key(h) ==> exists|i: int| 0 <= i < __ivs_new_stakes.len() && (#[trigger] __ivs_new_stakes[i]).0 == h)
+                     && (forall|i: int, j: int| 0 <= i < j < __ivs_new_stakes.len() ==> (#[trigger] __ivs_new_stakes[i]).0 != (#[trigger] __ivs_new_stakes[j]).0)""", "C13"),
+               C("added", """(forall|h: TxHash| #[trigger] next_state.stakes@.contains_key(h) <==> (ns2.stakes@.contains_key(h) || exists|i: int| 0 <= i < it.index@ && (#[trigger] __ivs_new_stakes[i]).0 == h))
+                     && (forall|h: TxHash| #[trigger] next_state.stakes@.contains_key(h) ==> next_state.stakes@[h] == (if exists|i: int| 0 <= i < it.index@ && (#[trigger] __ivs_new_stakes[i]).0 == h { nsm[h] } else { ns2.stakes@[h] }))""", "C13"),
+           ])]),
     ],
 )
